@@ -269,7 +269,9 @@ class World:
             if out[0] == "raise" and isinstance(obj, VObj):
                 # a property of an attribute-style parent fails with an ordinary built-in exception: the classes the default
                 # resolver itself catches around its *item* lookup (KeyError, TypeError) are still failures of the attribute read
-                raise [InjectedError, KeyError, TypeError, IndexError, ValueError][len(out[2]) % 5]("boom at %s" % out[2])
+                # ... whose only argument is not always text (`KeyError(7)`: a failed lookup by number)
+                raise [InjectedError, KeyError, TypeError, IndexError, ValueError][len(out[2]) % 5](
+                    "boom at %s" % out[2] if len(out[2]) % 3 else len(out[2]))
             raise make_exception(out[0], out[2])
         if out[2] in self.faults:
             self.fired.append(out[2])
@@ -363,7 +365,7 @@ class World:
             self.anomalies.append(("delivered-argument-type", "%s.%s" % (T, fname), bad))
         out = self.field_outcome(T, fname, pid, args if args else None)
         if self.p_raise_odd and self.rng_for(out[2] + "|odd").random() < self.p_raise_odd:
-            raise make_exception(self.rng_for(out[2] + "|oddk").choice(["raise_odd", "raise_odd", "raise", "raise_tf"]), out[2])
+            raise make_exception(self.rng_for(out[2] + "|oddk").choice(["raise_odd", "raise_odd", "raise", "raise_tf", "raise_builtin"]), out[2])
         if self.sched is not None:
             await self.sched.gate("r:" + "/".join(map(str, info.path.as_list())))
         if out[2] in self.faults:
@@ -468,6 +470,10 @@ class OddMessageError(Exception):
 def make_exception(kind, key):
     if kind == "raise":
         return InjectedError("boom at %s" % key)
+    if kind == "raise_builtin":
+        # ordinary built-in exceptions whose only argument is not text: a failed lookup by number, by tuple, by None, by bytes
+        return [KeyError(7), KeyError(None), IndexError(3), TypeError(("a", 1)), ValueError(b"bytes"), KeyError(("k", 2)),
+                LookupError(0.5)][len(key) % 7]
     if kind == "raise_odd":
         # exceptions that are awkward to REPORT: unprintable, or the library's own container class without content
         from tartiflette.types.exceptions.tartiflette import MultipleException
